@@ -464,3 +464,53 @@ UNITS = [
            "self.action_iteration[a] in self.iteration_repetitions) for a in all_names())"],
        ensures=INVS + ["self.all_actions == all_names()"]),
 ]
+
+
+# ---------------------------------------------------------------------------------------------------------------
+# concertina_lib.RenamePredicate (plan assembly: a predicate that is both requested and an intermediate of another
+# requested predicate is renamed in the export map and in both edge sets): proved -- the three results are exactly the
+# images of the three inputs under the renaming of names (to_name fresh among the export map's keys).
+REN = "(to_name if x == from_name else x)"
+EDGE_T = 'set[tuple[str,str]]'
+
+
+def _rename_cases(tier, mod):
+  import itertools
+  names = ['P', 'Q', 'R']
+  edges = [(a, b) for a in names for b in names if a != b]
+  for m in ({}, {'P': 'sql p'}, {'P': 'sql p', 'Q': 'sql q'}):
+    for k in range(0, 3 if tier == 'quick' else 4):
+      for e in itertools.combinations(edges, k):
+        for d in ((), (('D', 'P'),), (('D', 'P'), ('P', 'X'))):
+          for frm in ('P', 'Q', 'Zz'):
+            yield {'args': [dict(m), set(e), set(d), frm, 'N'], 'show': {'map': m, 'edges': list(e), 'data': list(d), 'from': frm}}
+
+
+def _edge_inv(new, old, vis):
+  return ["all((ren(e[0]), ren(e[1])) in %s for e in %s)" % (new, vis),
+          "all(any((ren(e[0]), ren(e[1])) == e2 for e in %s) for e2 in %s)" % (vis, new)]
+
+
+UNITS += [
+  unit(F, 'RenamePredicate', name='concertina.RenamePredicate[proved]', props=['C14'],
+       params=['table_to_export_map', 'dependency_edges', 'data_dependency_edges', 'from_name', 'to_name'],
+       types={'table_to_export_map': 'dict[str,str]', 'dependency_edges': EDGE_T, 'data_dependency_edges': EDGE_T,
+              'from_name': 'str', 'to_name': 'str'},
+       locals={'new_table_to_export_map': 'dict[str,str]', 'new_dependency_edges': EDGE_T,
+               'new_data_dependency_edges': EDGE_T},
+       returns='tuple[dict[str,str],set[tuple[str,str]],set[tuple[str,str]]]', fields={}, modifies=[],
+       spec_funcs={'ren': (['x'], REN)}, native=lambda tier, mod: _rename_cases(tier, mod),
+       requires=["to_name not in table_to_export_map"],
+       ensures=[
+           "all(ren(k) in result[0] and result[0][ren(k)] == table_to_export_map[k] for k in table_to_export_map)",
+           "all(any(ren(k) == k2 for k in table_to_export_map) for k2 in result[0])",
+           "all((ren(e[0]), ren(e[1])) in result[1] for e in dependency_edges)",
+           "all(any((ren(e[0]), ren(e[1])) == e2 for e in dependency_edges) for e2 in result[1])",
+           "all((ren(e[0]), ren(e[1])) in result[2] for e in data_dependency_edges)",
+           "all(any((ren(e[0]), ren(e[1])) == e2 for e in data_dependency_edges) for e2 in result[2])"],
+       loops={0: {'inv': ["all(ren(k) in new_table_to_export_map and "
+                          "new_table_to_export_map[ren(k)] == table_to_export_map[k] for k in _visited0)",
+                          "all(any(ren(k) == k2 for k in _visited0) for k2 in new_table_to_export_map)"]},
+              1: {'inv': _edge_inv('new_dependency_edges', 'dependency_edges', '_visited1')},
+              2: {'inv': _edge_inv('new_data_dependency_edges', 'data_dependency_edges', '_visited2')}}),
+]
